@@ -46,7 +46,8 @@ Definition tr_view (v : view) : tr :=
   TL [TN (v_h v); TN (v_r v); TB (vs_pkh (v_vals v)); TB (vs_vph (v_vals v));
       TL (map TN (vs_keys (v_vals v))); TL (map TN (vs_pows (v_vals v)));
       TL (map TB (sort_b (map (fun p => hd_hash (ph_hdr p)) (v_phs v))));
-      tr_pmap (v_pv v); tr_pmap (v_pc v); tr_sum (v_sum v); tr_cproof (v_pcp v)].
+      tr_pmap (v_pv v); tr_pmap (v_pc v); tr_sum (v_sum v); tr_cproof (v_pcp v);
+      TN (if vs_ok (v_vals v) then 1 else 0)].
 
 Definition tr_opt_coll (c : option sparse_coll) : tr :=
   match c with None => TL [] | Some (pkh, m) => TL [TB pkh; tr_coll m] end.
@@ -73,7 +74,7 @@ Definition tr_hdrs (l : list (N * (hdr * cproof))) : tr :=
   TL (map (fun x => TL [TN (fst x); TB (hd_hash (fst (snd x))); TB (hd_prev (fst (snd x)));
                         TB (vs_pkh (hd_next (fst (snd x)))); TB (vs_vph (hd_next (fst (snd x))));
                         TL (map TN (vs_keys (hd_next (fst (snd x))))); TL (map TN (vs_pows (hd_next (fst (snd x)))));
-                        tr_cproof (snd (snd x))])
+                        tr_cproof (snd (snd x)); TN (if vs_ok (hd_next (fst (snd x))) then 1 else 0)])
           (fold_right insert_hd [] l)).
 
 Definition observe (s : kstate) : tr :=
